@@ -3,6 +3,7 @@ import Mathlib.Algebra.Module.Prod
 import Mathlib.Tactic.FieldSimp
 import RockitModel.Proofs.RKTie
 import RockitModel.Proofs.Weights
+import RockitModel.Generated.Objective
 /-!
 # C05 — the NLP objective is the sum of the declared Mayer, sum and integral terms
 -/
@@ -173,5 +174,31 @@ theorem source_rk4_quadrature_is_model (f : V → K → V × Q) (x : V) (t0 DT D
   (RKTie.rk4_source_is_model f x t0 DT DTc).2
 
 end source_tie
+
+/-! ### the terms of the OCP and of every stage reach one objective -/
+section all_stages
+
+/-- the Opti shared by an OCP and all its stages collects the objective by `objective := objective + term`, once per transcribed stage
+(starting from 0): what the solver receives is the sum of the terms of ALL stages, in any order -/
+theorem accumulated_objective_is_sum {K : Type} [AddCommMonoid K] (terms : List K) :
+    terms.foldl (fun acc t => acc + t) 0 = terms.sum := by
+  have h : ∀ (a : K) (l : List K), l.foldl (fun acc t => acc + t) a = a + l.sum := by
+    intro a l
+    induction l generalizing a with
+    | nil => simp
+    | cons t ts ih => simp only [List.foldl_cons, List.sum_cons, ih]; rw [add_assoc]
+  simpa using h 0 terms
+
+/-- … and the source as it is now (regenerated on every run) does exactly that: `OptiWrapper.add_objective` accumulates, nothing calls
+`clear_objective`, and each method class hands over the stage's whole declared objective exactly once -/
+theorem source_objective_accumulates :
+    Rockit.Generated.optiAddObjective = "self.objective=self.objective+expr" ∧
+    Rockit.Generated.clearObjectiveCalls = [] ∧
+    Rockit.Generated.objectiveCalls =
+      [("DirectMethod.transcribe", "self.eval_top(stage,stage._objective)"), ("SamplingMethod.add_objective", "self.eval(stage,stage._objective)")] := by decide
+
+example : ([3, 4, 5] : List Int).foldl (fun acc t => acc + t) 0 = 12 := by decide
+
+end all_stages
 
 end Rockit.C05
